@@ -4,19 +4,21 @@
 # scratch evidence/replay dir, and always reverts /repo afterwards (git checkout -- .).
 # With MUT_SCRATCH=1 the same is done on a scratch copy (/tmp/mm-repo = clone of /repo HEAD,
 # /tmp/mm-harness = copy of the harness pointing at it) so that /repo and /verif/harness stay
-# usable meanwhile; the scratch copies are removed by `run_mutant.sh --clean`.
+# usable meanwhile (MUT_SLOT=<n> selects one of several independent scratch copies so that
+# several changes can be tried in parallel); the scratch copies are removed by `run_mutant.sh --clean`.
 set -u
-if [ "${1:-}" = "--clean" ]; then rm -rf /tmp/mm-repo /tmp/mm-harness /tmp/mvh-mut; exit 0; fi
+if [ "${1:-}" = "--clean" ]; then rm -rf /tmp/mm-repo* /tmp/mm-harness* /tmp/mvh-mut*; exit 0; fi
+SLOT="${MUT_SLOT:-}"
 PATCH="$1"; shift
-SCR=/tmp/mvh-mut
+SCR=/tmp/mvh-mut$SLOT
 rm -rf "$SCR"; mkdir -p "$SCR"
 cp /verif/known_findings.json "$SCR/"
 if [ "${MUT_SCRATCH:-0}" = 1 ]; then
-  REPO=/tmp/mm-repo; H=/tmp/mm-harness
+  REPO=/tmp/mm-repo$SLOT; H=/tmp/mm-harness$SLOT
   if [ ! -d $REPO/.git ]; then git clone -q /repo $REPO || exit 2; fi
   git -C $REPO checkout -q -- . ; git -C $REPO fetch -q origin; git -C $REPO reset -q --hard "$(git -C /repo rev-parse HEAD)"
   mkdir -p $H; rsync -a --delete --exclude target --exclude 'target-*' /verif/harness/ $H/
-  sed -i 's#path = "/repo"#path = "/tmp/mm-repo"#' $H/Cargo.toml
+  sed -i "s#path = \"/repo\"#path = \"$REPO\"#" $H/Cargo.toml
 else
   REPO=/repo; H=/verif/harness
 fi
@@ -31,6 +33,6 @@ fi
 cd $H
 cargo build --release --offline --bin check 2>&1 | grep -E "^error" -A 8 | head -20
 for c in "$@"; do
-  out=$(MVH_VERIF_DIR=$SCR MVH_SCALE=${SCALE:-1} timeout 3600 ./target/release/check $c --tier ${TIER:-quick} ${SEED:+--seed $SEED} 2>&1 | grep -v "^KNOWN" | tail -4 | cut -c1-700)
+  out=$(MVH_VERIF_DIR=$SCR MVH_SCALE=${SCALE:-1} timeout 3600 ./target/release/check $c --tier ${TIER:-quick} ${SEED:+--seed $SEED} ${THREADS:+--threads $THREADS} 2>&1 | grep -v "^KNOWN" | tail -4 | cut -c1-700)
   if echo "$out" | grep -q "VIOLATION"; then echo "[$c] DETECTED: $(echo "$out" | grep -E '^FAIL|^VIOLATION' | head -1 | cut -c1-400)"; else echo "[$c] missed: $(echo "$out" | tail -1 | cut -c1-200)"; fi
 done
